@@ -68,6 +68,18 @@ def generate():
     if not mk or mk.group(1) not in sets:
         raise Shape("keyword(): not `tag(t)` followed by peek(none_of(<character set>)) / end of input")
     boundary = sets[mk.group(1)]
+    # keyword(t) first asks is_reserved_in_force(t) (both cfg variants), which looks t up in the table of the version
+    # in force: a word of the latest table that the table in force lacks is no keyword there
+    for variant in re.findall(r"pub\(crate\) fn keyword<'a>.*?\n\}\n", ut, re.S):
+        if not re.search(r"if !is_reserved_in_force\(t\) \{\s*return Err\(Err::Error\(make_error\(s, ErrorKind::Fix\)\)\);\s*\}\s*let \(s, x\) = map\(", variant):
+            raise Shape("keyword(): does not start by asking is_reserved_in_force(t)")
+    body = fn_body(ut, "is_reserved_in_force")
+    rdisp = dict(re.findall(r"Some\(Version::(\w+)\) => (KEYWORDS_\w+)", body))
+    rest = re.sub(r"Some\(Version::(\w+)\) => (KEYWORDS_\w+),?", "", body)
+    if re.sub(r"\s+", "", rest) != "letkeywords=matchcurrent_version(){_=>returntrue,};!KEYWORDS_1800_2017.contains(&t)||keywords.contains(&t)":
+        raise Shape("is_reserved_in_force: not `latest table lacks t or the table in force has it`: %r" % rest[:160])
+    if any(disp.get(v) != tb for v, tb in rdisp.items()):
+        raise Shape("is_reserved_in_force: a version is mapped to another table than in is_keyword")
     for need in ("AZ_", "AZ09_", "AZ09_DOLLAR"):
         if need not in sets:
             raise Shape("character set %s not found" % need)
@@ -80,6 +92,11 @@ def generate():
     for v in versions:
         out.append("  | Some V_%s => %s" % (v, disp[v].lower()))
     out.append("  | None => %s\n  end." % mnone.group(1).lower())
+    out.append("Definition guard_table_of (v : option version) : option (list string) :=\n  match v with")
+    for v in versions:
+        if v in rdisp:
+            out.append("  | Some V_%s => Some %s" % (v, rdisp[v].lower()))
+    out.append("  | _ => None\n  end.")
     out.append("Definition specifiers : list (string * version) := [%s]." % "; ".join('("%s", V_%s)' % (s, v) for s, v in arms))
     out.append("Definition lexers_refuse_keywords : bool := %s." % ("true" if all(lex.values()) else "false"))
     out.append('Definition ident_first : string := "%s".' % sets["AZ_"])
@@ -88,7 +105,7 @@ def generate():
     out.append('Definition keyword_boundary : string := "%s".' % boundary)
     text = "\n".join(out) + "\n"
     facts = {"tables": {k: len(v) for k, v in tables.items()}, "versions": versions, "dispatch": disp, "none": mnone.group(1),
-             "specifiers": arms, "lexers": lex, "char_sets": sets, "keyword_boundary": mk.group(1), "hash": hashlib.sha256(text.encode()).hexdigest()[:16],
+             "specifiers": arms, "lexers": lex, "char_sets": sets, "keyword_boundary": mk.group(1), "keyword_guard": sorted(rdisp), "hash": hashlib.sha256(text.encode()).hexdigest()[:16],
              "words": tables}
     return text, facts
 
